@@ -371,6 +371,19 @@ func runCase(c Case) vh.Result {
 	if c.Mut.Kind != "none" {
 		res.Classes = append(res.Classes, "accepted-mutant")
 	}
+	// "every field name referenced anywhere in the file is validated at load time": in the two hand-written bases every
+	// scalar that holds a schema field name outside the schema's own field list is a reference to that field; with an
+	// unknown name in its place the file must be refused
+	if c.Mut.Kind == "scalar" && c.Mut.Fault == "nosuchfield" && (c.Base == "sample" || c.Base == "minimal") && !strings.HasPrefix(c.Mut.Site, ".schema.fields") {
+		if n, _, _ := nodeAt(parseDoc(text), c.Mut.Path); n != nil {
+			for _, f := range schemaFields(text) {
+				if n.Value == f {
+					res.Violation = vh.Fail("config:unknown-field-reference-accepted", "%s referenced the schema field %q; with the unknown name \"nosuchfield\" in its place the configuration is still accepted: the reference is not validated at load time", c.Mut.Site, f)
+					return res
+				}
+			}
+		}
+	}
 	// accepted: everything must be constructible and able to process records
 	bufRoot := filepath.Join(workDir, "buf")
 	defer os.RemoveAll(bufRoot)
